@@ -268,7 +268,12 @@ class Net:
 
     def select(self, r, w, x, timeout=None):
         self.sim.yield_point()
-        return [s for s in r if s._readable()], [], []
+        ready = [s for s in r if s._readable()]
+        if not ready and (timeout is None or timeout > 0):
+            # blocking select: until one of the sockets is readable or the time-out (virtual time) is over
+            self.sim.wait_until(lambda: any(s._readable() for s in r), timeout, what='select')
+            ready = [s for s in r if s._readable()]
+        return ready, [], []
 
 
 class UdpSocket:
